@@ -1,0 +1,8 @@
+//go:build !verif
+// +build !verif
+
+package app
+
+func (app *App) verifPrepare() bool { return false }
+
+func verifNotePanic(r interface{}) {}
